@@ -316,7 +316,7 @@ def run_case(case, seed=0, replay_dir=None, known=None):
             big = polys is not None and sum(len(d.d) for d in polys if isinstance(d, P)) > 150000
             if polys is not None and any(isinstance(d, P) for d in polys):
                 # the normal form of the difference is a non-zero polynomial: look for a point where it does not vanish
-                w = _sample_nonzero(polys, V, seed)
+                w = _sample_nonzero(polys, V, seed, pre=pre + side)
                 if w is not None:
                     r = dec.Result("sat", _FakeModel(w), 0.0, "non-zero normal form evaluated at a seeded rational point", len(allv))
             if r is None and big:
@@ -331,6 +331,13 @@ def run_case(case, seed=0, replay_dir=None, known=None):
             if r.status == "sat":
                 vals = r.model.vals if isinstance(r.model, _FakeModel) else {n: dec.model_value(r.model, v) for n, v in V.vars.items()}
                 rep = _replay(case, vals, label, real)
+                if not rep["violates"] and hasattr(case, "replay_variants"):
+                    # the model also fixes uninterpreted values the real code computes itself: try the case's variants of the input part
+                    for v2 in case.replay_variants(vals):
+                        rep2 = _replay(case, v2, label, real)
+                        if rep2["violates"]:
+                            vals, rep = v2, rep2
+                            break
                 ob["replay"] = rep["summary"]
                 if rep["violates"]:
                     key = f"{case.name}:{label}"
@@ -390,7 +397,7 @@ class _FakeModel:
         self.vals = vals
 
 
-def _sample_nonzero(polys, V, seed, tries=6):
+def _sample_nonzero(polys, V, seed, tries=8, pre=()):
     import random
     rng = random.Random(seed + 991)
     names = P_VARS.names
@@ -408,6 +415,10 @@ def _sample_nonzero(polys, V, seed, tries=6):
             vals.setdefault(n, Fraction(0))
         try:
             if any(isinstance(d, P) and d.eval(point) != 0 for d in polys):
+                if pre:
+                    subs = [(z3.Real(n), z3.RealVal(str(point[i].numerator)) / z3.RealVal(str(point[i].denominator))) for i, n in enumerate(names)]
+                    if not all(z3.is_true(z3.simplify(z3.substitute(c, *subs))) for c in pre):
+                        continue
                 return vals
         except Exception:
             return None
